@@ -160,7 +160,7 @@ class Ctx:
         self._fixdb[key] = d
         return d
 
-    def snippet_db(self, name, text):
+    def snippet_db(self, name, text, flags=""):
         """Facts for a synthetic translation unit (e.g. instantiated code templates of a generator), compiled with the
         include paths and defines of the library build.  The file lives in the scratch directory only."""
         sdir = os.path.join(self.scratch, "snip_" + name)
@@ -170,8 +170,8 @@ class Ctx:
             f.write(text)
         with open(os.path.join(sdir, "compile_commands.json"), "w") as f:
             json.dump([{"directory": sdir, "file": src,
-                        "command": "cc -I%s -I%s -I%s/orc -DHAVE_CONFIG_H -DORC_ENABLE_UNSTABLE_API -D_GNU_SOURCE -c %s" %
-                        (self.builddir, REPO, REPO, src)}], f)
+                        "command": "cc %s -I%s -I%s -I%s/orc -DHAVE_CONFIG_H -DORC_ENABLE_UNSTABLE_API -D_GNU_SOURCE -c %s" %
+                        (flags, self.builddir, REPO, REPO, src)}], f)
         self.extract([src], os.path.join(sdir, "facts"), sdir)
         return facts.DB(os.path.join(sdir, "facts"))
 
